@@ -219,7 +219,7 @@ Creases(verts, tris, label, rep) ==
   IN { {verts[x[1]], verts[x[2]]} : x \in {y \in EL : <<y[2], y[1], y[3]>> \notin EL} }
 
 (* ---- the pipeline of wulff.py, step by step --------------------------------- *)
-(* _populate_duals: the polar dual of plane i is g_i = n_i/e_i = v_i/c_i (units Q).          *)
+(* _populate_duals: the polar dual of plane i is g_i = n_i/e_i, in the units of y: v_i/c_i.  *)
 (* _construct_dual_space_hull: a simplex <<i,j,k>> of the hull of the duals is a             *)
 (* non-degenerate triple whose plane has every dual point on the side of the origin.         *)
 (* DualSide(i,j,k,m) = det[g_j-g_i, g_k-g_i, g_m-g_i] * (c_i^3 c_j c_k c_m), and with the    *)
